@@ -270,7 +270,7 @@ theorem sAdmit_spaced (cfg : Cfg) (T : Nat) (h : Hdrs) :
     have hac : cfg.quotas[a]? = some c := hv (a, c) (by simp)
     rw [sAdmit_cons]
     apply ih _ (fun p hp => hv p (by simp [hp]))
-    exact hs.set (a, groupOf c h) c hac _ (hs (a, groupOf c h) c hac).admit
+    exact hs.set (a, groupOf c h) c hac _ (hs (a, groupOf c h) c hac).admitOk
 
 theorem sStep_spaced (cfg : Cfg) (hwin : ∀ (i : Nat) (c : QuotaCfg), cfg.quotas[i]? = some c → c.win % nsPerSec = 0) (ss : SSt) (o : Obs)
     (hs : SpAll cfg o.op.t ss) : SpAll cfg o.op.t (sStep cfg ss o) := by
